@@ -94,6 +94,9 @@ def join_vocabulary(ctx):
     return sorted(out)
 
 
+_METHODS = {}
+
+
 def run(ctx):
     ctx.explanation = (
         'Truth tables of the join planner\'s pushdown decisions, obtained by interpreting the functions of PlanJoinTablesQuery on '
@@ -114,6 +117,8 @@ def run(ctx):
     cls = class_named(tree, 'PlanJoinTablesQuery')
     ctx.need(cls is not None, 'PlanJoinTablesQuery not found')
     fn = {m.name: m for m in cls.body if isinstance(m, ast.FunctionDef)}
+    _METHODS.clear()
+    _METHODS['PlanJoinTablesQuery'] = fn
     for need in ('check_query_conditions', 'check_node_condition', 'check_use_limit', 'process_table', 'get_filters_from_join_conditions',
                  'get_join_sequence', 'plan'):
         ctx.need(need in fn, f'PlanJoinTablesQuery.{need} not found')
@@ -141,7 +146,7 @@ def run(ctx):
         got = []
         stubs = base_stubs()
         stubs['self.check_node_condition'] = lambda it, n: got.append(n)
-        it = Interp(ISA, stubs)
+        it = Interp(ISA, stubs, methods=_METHODS)
         self_ = Obj('PlanJoinTablesQuery', query_context={})
         try:
             it.call_function(fn['check_query_conditions'], [self_, select_ctor(None, where=where)], {}, _env())
@@ -183,7 +188,7 @@ def run(ctx):
         tinfo.attrs['conditions'] = []
         stubs = base_stubs()
         stubs['self.get_table_for_column'] = lambda it, c: c.attrs.get('_table') if isinstance(c, Obj) else None
-        it = Interp(ISA, stubs)
+        it = Interp(ISA, stubs, methods=_METHODS)
         try:
             it.call_function(fn['check_node_condition'], [Obj('PlanJoinTablesQuery'), node], {}, _env())
         except Raised as r:
@@ -233,7 +238,7 @@ def run(ctx):
         stubs['SubSelectStep'] = lambda it, *a, **k: Obj('SubSelectStep', result='R-sub', args=a)
         stubs['Parameter'] = lambda it, v: Obj('Parameter', value=v)
         self_ = Obj('PlanJoinTablesQuery', tables_fetch_step={0: Obj('FetchDataframeStep', result='R0')})
-        it = Interp(ISA, stubs)
+        it = Interp(ISA, stubs, methods=_METHODS)
         try:
             res = it.call_function(fn['get_filters_from_join_conditions'], [self_, me], {}, _env())
         except Raised as r:
@@ -271,7 +276,7 @@ def run(ctx):
         stubs['self.resolve_table'] = resolve
         stubs['self.planner.get_predictor'] = lambda it, n: None
         self_ = Obj('PlanJoinTablesQuery', tables_idx={}, tables=[])
-        it = Interp(ISA, stubs)
+        it = Interp(ISA, stubs, methods=_METHODS)
         it.stubs['self.get_join_sequence'] = lambda itp, *a, **k: itp.call_function(fn['get_join_sequence'], [self_] + list(a), dict(k), _env())
         seq = it.call_function(fn['get_join_sequence'], [self_, j2], {}, _env())
         rows += 1
@@ -318,7 +323,7 @@ def run(ctx):
         q = select_ctor(None, limit=const(5) if limit else None, group_by=[ident('t1.a')] if group_by else None,
                         having=cmp_('t1.a') if having else None, distinct=distinct, targets=target_shapes[tname])
         self_ = Obj('PlanJoinTablesQuery', query_context={})
-        it = Interp(ISA, base_stubs())
+        it = Interp(ISA, base_stubs(), methods=_METHODS)
         try:
             it.call_function(fn['check_use_limit'], [self_, q, seq], {}, _env())
         except Raised as r:
@@ -388,7 +393,7 @@ def run(ctx):
         stubs['self.add_plan_step'] = lambda it, s: s
         self_ = Obj('PlanJoinTablesQuery', query_context={'use_limit': use_limit, 'binary_ops': ['and', 'or'] if has_or else ['and'], count_key: n_conj},
                     tables_fetch_step={}, step_stack=[])
-        it = Interp(ISA, stubs)
+        it = Interp(ISA, stubs, methods=_METHODS)
         try:
             it.call_function(fn['process_table'], [self_, me, q], {}, _env())
         except Raised as r:
@@ -445,7 +450,7 @@ def run(ctx):
         stubs['self.plan_join_tables'] = lambda it, query: join_step
         stubs['self.planner.plan.add_step'] = lambda it, s: (added.append(s), s)[1]
         stubs['QueryStep'] = lambda it, query, from_table=None, **k: Obj('QueryStep', query=query, from_table=from_table)
-        it = Interp(ISA, stubs)
+        it = Interp(ISA, stubs, methods=_METHODS)
         res = it.call_function(fn['plan'], [Obj('PlanJoinTablesQuery', tables_idx=None), q], {}, _env())
         rows += 1
         if label == 'none':
@@ -485,7 +490,7 @@ def run(ctx):
         stubs['SubSelectStep'] = lambda it, q, res, **k: Obj('SubSelectStep', query=q, dataframe=res, **k)
         stubs['FetchDataframeStep'] = lambda it, **k: Obj('FetchDataframeStep', **k)
         self_ = Obj('QueryPlanner', default_namespace=default_ns, cte_results={'sales': 'R-cte'})
-        it = Interp(ISA, stubs)
+        it = Interp(ISA, stubs, methods=_METHODS)
         res = it.call_function(gis, [self_, select_ctor(None, from_table=tbl, targets=[Obj('Star')])], {}, _env())
         rows += 1
         got = 'cte' if res.kind == 'SubSelectStep' else res.attrs.get('integration')
@@ -529,7 +534,7 @@ def run(ctx):
         stubs = base_stubs()
         stubs['self.plan.add_step'] = lambda it, s2: (added.append(s2), s2)[1]
         stubs['SubSelectStep'] = lambda it, query, dataframe, **k: Obj('SubSelectStep', query=query, dataframe=dataframe, **k)
-        it = Interp(ISA, stubs)
+        it = Interp(ISA, stubs, methods=_METHODS)
         res = it.call_function(pss, [Obj('QueryPlanner'), q, prev], {}, _env())
         rows += 1
         if label == 'none':
